@@ -401,6 +401,58 @@ int eval_man(const std::string & op, const std::vector<typename Ops<M>::S> & x, 
       } else {
         Codec<M>::put(out, O::dflt(n));
       }
+    } else if (op == "man_dof_member" || op == "man_rplus_member" || op == "man_rminus_member") {
+      // the PUBLIC MEMBER functions of SubManifold / AnyManifold called directly (not through smooth::rplus → traits::man)
+      if constexpr (is_sub<M>::value || std::is_same_v<M, AnyBox>) {
+        auto self = [](const M & mm) -> const auto & {
+          if constexpr (std::is_same_v<M, AnyBox>) return mm.any;
+          else return mm;
+        };
+        auto wrap = [](const M & like, auto && res) {
+          if constexpr (std::is_same_v<M, AnyBox>) return AnyBox{like.idx, std::forward<decltype(res)>(res)};
+          else return M(std::forward<decltype(res)>(res));
+        };
+        const M m = Codec<M>::get(r);
+        if (op == "man_dof_member") {
+          if (!r.done()) return 0;
+          out.push_back(S(self(m).dof()));
+        } else if (op == "man_rplus_member") {
+          const V a = r.list();
+          if (!r.done() || a.size() != O::dof(m)) return 0;
+          Codec<M>::put(out, wrap(m, self(m).rplus(a)));
+        } else {
+          const M m2 = Codec<M>::get(r);
+          if (!r.done()) return 0;
+          if constexpr (std::is_same_v<M, AnyBox>) {
+            if (m.idx != m2.idx) return 0;
+          }
+          const V d = self(m).rminus(self(m2));
+          out.push_back(S(d.size()));
+          for (Eigen::Index i = 0; i < d.size(); ++i) out.push_back(d(i));
+        }
+      } else {
+        return 0;
+      }
+    } else if (op == "man_move") {
+      // move construction and move assignment hand the value on unchanged
+      M m = Codec<M>::get(r);
+      if (!r.done()) return 0;
+      M b(std::move(m));
+      M c(b);        // something to assign over
+      c = std::move(b);
+      Codec<M>::put(out, c);
+    } else if (op == "man_default_static") {
+      // Default<M>() without argument (static-size types only) must be Default<M>(Dof<M>)
+      const int n = r.nat();
+      if (!r.done()) return 0;
+      if constexpr (std::is_same_v<M, AnyBox>) {
+        return 0;
+      } else if constexpr (smooth::traits::man<M>::Dof > 0 && default_compiles<M>::value) {
+        if (n != smooth::Dof<M>) return 0;
+        Codec<M>::put(out, smooth::Default<M>());
+      } else {
+        return 0;
+      }
     } else if (op == "man_copy") {
       M m       = Codec<M>::get(r);
       const V a = r.list();
@@ -809,6 +861,10 @@ struct Emit
     go("man_rminus", cat(enc(m), enc(m2)), tag);
     go("man_cast", enc(m), tag);
     go("man_copy", cat(enc(m), lst(a)), tag);
+    go("man_move", enc(m), tag);
+    go("man_dof_member", enc(m), tag);
+    go("man_rplus_member", cat(enc(m), lst(a)), tag);
+    go("man_rminus_member", cat(enc(m), enc(m2)), tag);
     go("aud_axioms", cat(enc(m), lst(a), enc(m2)), tag);
     if constexpr (is_vec<M>::value) go("aud_vec", cat(enc(m), lst(a), enc(m2)), tag);
   }
@@ -837,6 +893,7 @@ void run_plain(FILE * f, Rng & r, int n)
     if (smooth::traits::man<M>::Dof > 0 && d != 0) continue;
     std::vector<S> x{S(smooth::traits::man<M>::Dof > 0 ? smooth::traits::man<M>::Dof : d)};
     e.go("man_default", x, "default");
+    e.go("man_default_static", x, "default");
   }
 }
 
